@@ -68,9 +68,17 @@ def specCheck (bits : Bits) (m : String) (members : String → List Int) : Strin
           if bad.isEmpty then "OK" else "FAIL " ++ ",".intercalate (bad.map fun (lo, _) => lo.1.name)
     | _, _ => "FAIL unparsable"
 
+def kindTag : Spec.Kind → String
+  | .u => "u" | .uf => "uf" | .b => "b" | .e c => "e/" ++ c | .t => "t" | .d => "d" | .U1 => "U1"
+  | .I4 => "I4" | .I1 => "I1" | .I600 => "I600" | .ROT => "ROT"
+
 def step (line : String) : String :=
   match (line.trimAscii.toString.splitOn " ").filter (· ≠ "") with
   | ["spec.check", b, m, mem] => specCheck (parseBits b) m (parseMembers mem)
+  | ["spec.layout", cls] =>
+    match Spec.layouts.lookup cls with
+    | some L => ";".intercalate (L.map fun f => s!"{f.name}:{f.width}:" ++ kindTag f.kind)
+    | none => "UNKNOWN"
   | _ => "BAD-OP"
 
 partial def loop (h : IO.FS.Stream) (out : IO.FS.Stream) : IO Unit := do
